@@ -108,13 +108,32 @@ class CliResult:
         self.fs = None
 
 
-def run_cli(argv, fs):
+class FaultyStdout(io.StringIO):
+    """A standard output that cannot be written to: a full device (OSError) or an encoding that cannot
+    represent the text (UnicodeEncodeError)."""
+
+    def __init__(self, kind):
+        super().__init__()
+        self.kind = kind
+        self.fired = False
+
+    def write(self, text):
+        if not text:
+            return 0
+        self.fired = True
+        if self.kind == 'encode':
+            raise UnicodeEncodeError('ascii', text, 0, 1, 'ordinal not in range(128)')
+        raise OSError(errno.ENOSPC, os.strerror(errno.ENOSPC))
+
+
+def run_cli(argv, fs, stdout_fault=None):
     """Run hidc.__main__.main() in-process on the fake file system."""
     import hidc.__main__ as cli
     import hidc.lexer.scanner as scanner
     res = CliResult()
     res.fs = fs
-    out, err = io.StringIO(), io.StringIO()
+    out, err = (FaultyStdout(stdout_fault) if stdout_fault else io.StringIO()), io.StringIO()
+    res.stdout_obj = out
     saved = (sys.argv, getattr(cli, 'open', None), getattr(scanner, 'open', None))
     cli.open = fs.open
     scanner.open = fs.open
